@@ -5,6 +5,7 @@ import ConfModel.Spec.RunVerdict
 import ConfModel.Model.RunLoop
 import ConfModel.Model.FeedbackLine
 import ConfModel.Model.Cli
+import ConfModel.Model.SrvFeedback
 namespace ConfModel.Driver.C04
 open Lean ConfModel.Driver ConfModel.Report ConfModel.RunVerdict
 
@@ -196,6 +197,92 @@ def handleRunLoop (inp impl : Json) : Verdict :=
     why := why,
     cls := (if !late.isEmpty then "feedback-during-shutdown:" else "") ++ (if names.any fb then "peer-feedback:" else "") ++ (if names.any ownErr then "client-error-message:" else "") ++ (if tnames.isEmpty then "" else "odd-names:") ++
       stop ++ (if want then ":all-answered" else ":not-all") ++ (if iOk then ":success" else ":failure") }
+
+/-! ### ops "srvloop" / "srvcli": the real `Run` / the real command in mode SERVER — the in-process
+reference client against a server under test (the stock reference server behind a proxy that deviates on
+the wire for some cases without changing the decoded result).  Judged by the rule of the property: a
+case for which the reference peer had something to complain about is failed and the run fails; the
+model is `ConfModel.SrvFeedback.srvReport` (the callback with its `isReferenceClient` branch). -/
+
+def handleSrvLoop (inp impl : Json) : Verdict :=
+  if !(isNull (field impl "panic")) then
+    { agree := false, holds := false, why := "panic: " ++ str (field impl "panic") } else
+  if bool (field impl "invalid") then
+    { agree := true, holds := true, nontrivial := false, cls := "invalid-input" } else
+  let codes := strList (field inp "cases")
+  let tamper := strList (field inp "tamper")
+  let batches := (arr (field impl "batches")).map strList
+  let names := batches.flatten
+  let served := strList (field impl "served")
+  let tampered := strList (field impl "tampered")
+  let idxOf (n : String) : Option Nat := match (n.splitOn "/").getLast? with
+    | some base => if base.startsWith "c" then (base.drop 1).toString.toNat? else none
+    | none => none
+  if batches.isEmpty || names.any (fun n => ((idxOf n).bind (codes[·]?)).isNone) then
+    bad ("srvloop: no batches / unknown permutation name; err: " ++ str (field impl "err")) else
+  let codeOf (n : String) : List Char := (((idxOf n).bind (codes[·]?)).getD "ruo").toList
+  let tamperOf (n : String) : String := ((idxOf n).bind (tamper[·]?)).getD ""
+  let isWeb (n : String) : Bool := (n.splitOn "PROTOCOL_GRPC_WEB").length > 1
+  let isErr (n : String) : Bool := (codeOf n)[2]? == some 'e'
+  -- where the proxy is expected to deviate: errkey on a Connect unary error, httptrailer anywhere,
+  -- webmsg on a gRPC-Web response that ends with status 0
+  let eff (n : String) : Bool := match tamperOf n with
+    | "errkey" => !isWeb n && isErr n
+    | "httptrailer" => true
+    | "webmsg" => isWeb n && !isErr n
+    | _ => false
+  -- the reference peer has something to say about a case iff the server really deviated on it
+  let fb (n : String) : Bool := tampered.contains n
+  let markOfName (n : String) : Mark := ((codeOf n)[1]?.bind parseMark).getD .unmarked
+  let right (n : String) : Bool := (codeOf n)[0]? == some 'r'
+  let cases : List Case := names.map fun n =>
+    { name := n
+      kind := if served.contains n then (if right n then .pass else .assertFail) else .noResult
+      mark := markOfName n, feedback := fb n }
+  let want := specOk cases 0
+  let wantTot := specTotals cases 0
+  let iOk := bool (field impl "ok")
+  let iTot : Totals := { passed := nat (field impl "passed"), failed := nat (field impl "failed"),
+                         expected := nat (field impl "expected"), notRun := nat (field impl "notRun") }
+  let iFailed := strList (field impl "failedNames")
+  let iInfo := strList (field impl "infoNames")
+  let sum := iTot.passed + iTot.failed + iTot.expected + iTot.notRun
+  let unnamed := (specFailedNames cases).filter (fun n => !iFailed.contains n)
+  let wrongly := iFailed.filter (fun n => !(specFailedNames cases).contains n)
+  -- model: the callback with isReferenceClient = true on the same answers
+  let mk : Report.Marks :=
+    { failing := fun n => markOfName n == .failing, flaky := fun n => markOfName n == .flaky }
+  let resps : List SrvFeedback.Resp := names.map fun n =>
+    { name := n, ans := if right n then .pass else .mismatch
+      feedback := if fb n then ["wire deviation"] else [] }
+  let mRep := SrvFeedback.srvReport mk true resps
+  let allServed := names.all (fun n => served.contains n)
+  let harnessOK := allServed && names.all (fun n => eff n == fb n) && str (field impl "err") == ""
+  let agree := harnessOK && iOk == mRep.ok && iTot.passed == mRep.succeeded && iTot.failed == mRep.failed
+    && iTot.expected == mRep.expectedFailures && iTot.notRun == mRep.couldNotRun
+    && iFailed == mRep.failedNames.mergeSort (· ≤ ·) && iInfo == mRep.infoNames.mergeSort (· ≤ ·)
+  let why :=
+    if !want && iOk then
+      "verdict: the run succeeded although not every selected case ran and met its expectation ("
+        ++ toString ((cases.filter (fun c => !c.meets)).map (·.name)) ++ "); server mode, the server deviated on the wire for "
+        ++ toString tampered ++ " (the reference client reports that as feedback)"
+    else if want && !iOk then
+      "verdict: the run failed although every selected case ran and met its expectation; err: " ++ str (field impl "err")
+    else if !unnamed.isEmpty then "unnamed: failing cases not named on a FAILED line: " ++ toString unnamed
+    else if !wrongly.isEmpty then "misnamed: cases named on a FAILED line that met their expectation: " ++ toString wrongly
+    else if sum != names.length then
+      "totals: the printed totals account for " ++ toString sum ++ " of " ++ toString names.length ++ " selected cases"
+    else if iTot.passed != wantTot.passed || iTot.expected != wantTot.expected || iTot.failed != wantTot.failed then
+      "classes: printed passed/failed/expected " ++ toString iTot.passed ++ "/" ++ toString iTot.failed ++ "/" ++ toString iTot.expected ++
+        " but the cases give " ++ toString wantTot.passed ++ "/" ++ toString wantTot.failed ++ "/" ++ toString wantTot.expected
+    else ""
+  { agree := agree, holds := why.isEmpty, nontrivial := true,
+    model := Json.mkObj [("ok", mRep.ok), ("passed", mRep.succeeded), ("failed", mRep.failed), ("expected", mRep.expectedFailures),
+      ("failedNames", Json.arr (mRep.failedNames.map Json.str).toArray), ("harnessOK", harnessOK)],
+    why := why,
+    cls := "server-mode:" ++ (if names.any fb then "client-feedback:" else "no-feedback:") ++
+      (if want then "all-met" else "not-all") ++ (if iOk then ":success" else ":failure") }
+
 
 /-! ### op "inrun": one whole run in one process (real client runner on an in-process scripted client,
 real batch runner, real results and report, then the verdict as `Run` forms it) -/
@@ -456,6 +543,8 @@ def handle : Handler := fun op inp impl =>
   | "runloop" => handleRunLoop inp impl
   -- the same scenarios through the real command (exit status = verdict)
   | "runcli" => handleRunLoop inp impl
+  | "srvloop" => handleSrvLoop inp impl
+  | "srvcli" => handleSrvLoop inp impl
   | "inrun" => handleInRun inp impl
   | "cliargs" => handleCliArgs inp impl
   | _ => bad ("C04: unknown op " ++ op)
